@@ -1,18 +1,17 @@
 SPECIFICATION ESpec
 CONSTANTS
-  Plain = {p1, p2, p3, p4}
+  Plain = {p1, p2, p3}
   Limit = 2
   Full = 4
   Macro = FALSE
   Witness = "none"
-  MaxId = 12
+  MaxId = 9
   MaxJobs = 2
-  MaxFault = 0
+  MaxFault = 1
   MaxCrash = 1
   Forge = {}
   TamperOn = FALSE
   Deviations = {}
 SYMMETRY PlainSym
-INVARIANTS ETypeOK Recoverable IndexRight IndexBackedByMeta FetchSound AckedFetchable WitnessState
-PROPERTIES DeleteOnlyCovered WitnessStep
+INVARIANTS ETypeOK Recoverable
 CHECK_DEADLOCK FALSE
